@@ -303,7 +303,7 @@ def run_check(prop, tier, seed):
     if kinds is not None:
         kept = []
         for v in violations:
-            if v.get("kind") in kinds or v.get("kind") in ("crash", "hang", "unexpected_exception"):
+            if v.get("kind") in kinds or v.get("kind") in plan.get("always", ("crash", "hang", "unexpected_exception")):
                 kept.append(v)
             else:
                 ignored[v.get("kind")] += 1
